@@ -104,6 +104,13 @@ def run_checks(d: Path, tier: str):
                     pass
     finally:
         sh(["git", "-C", str(REPO), "checkout", "--", "."])
+        # files the patch added are untracked: remove exactly those
+        for line in open(d / "patch.diff"):
+            if line.startswith("+++ b/"):
+                f = REPO / line[6:].strip()
+                rc2, o2 = sh(["git", "-C", str(REPO), "ls-files", "--error-unmatch", str(f.relative_to(REPO))])
+                if rc2 != 0 and f.exists():
+                    f.unlink()
     return res
 
 
